@@ -41,6 +41,7 @@ inductive RwB : P n → P n → Prop
   | filter (e : Ex n) {p p' : P n} : RwB p p' → RwB (.filter e p) (.filter e p')
   | extend (v : Fin n) (e : PT n) {p p' : P n} : RwB p p' → RwB (.extend p v e) (.extend p' v e)
   | graph (t : PT n) {p p' : P n} : RwB p p' → RwB (.graph t p) (.graph t p')
+  | sub (pv : List (Fin n)) {p p' : P n} : RwB p p' → RwB (.sub pv p) (.sub pv p')
 
 theorem RwB.vars {q q' : P n} (h : RwB q q') : VEq q.vars q'.vars := by
   induction h with
@@ -54,6 +55,7 @@ theorem RwB.vars {q q' : P n} (h : RwB q q') : VEq q.vars q'.vars := by
   | filter e _ ih => exact ih
   | extend v e _ ih => exact ih.append (VEq.refl _)
   | graph t _ ih => exact (VEq.refl _).append ih
+  | sub pv _ ih => exact ih.append (VEq.refl _)
 
 theorem RwB.noJoin {q q' : P n} (h : RwB q q') : q.noJoin = q'.noJoin := by
   induction h with
@@ -67,6 +69,7 @@ theorem RwB.noJoin {q q' : P n} (h : RwB q q') : q.noJoin = q'.noJoin := by
   | filter e _ ih => simpa only [P.noJoin] using ih
   | extend v e _ ih => simpa only [P.noJoin] using ih
   | graph t _ ih => simpa only [P.noJoin] using ih
+  | sub pv _ ih => simpa only [P.noJoin] using ih
 
 /-! ### one row of `evalLeftJoin`, over an arbitrary evaluator of the right operand -/
 
@@ -170,6 +173,10 @@ theorem evalTD_rwB (ds : DSet) (hds : ds.Good) (init : Row n) {q q' : P n} (h : 
       | some gs =>
         obtain ⟨x, hx, e⟩ := lookupGraph_mem _ _ _ hlk
         exact ih gs μ (e ▸ hds x hx)
+  | @sub pv p p' hp ih =>
+    intro g μ hg
+    simp only [evalTD]
+    exact joinBag_perm ((ih g init hg).map _) (List.Perm.refl _)
 
 /-- `simplify`'s re-ordering of every BGP is such a rewrite -/
 theorem RwB.reorder (isLit : Term → Bool) (tle : TP n → TP n → Bool) (q : P n) : RwB q (q.reorder isLit tle) := by
@@ -183,6 +190,7 @@ theorem RwB.reorder (isLit : Term → Bool) (tle : TP n → TP n → Bool) (q : 
   | extend p v e ih => exact .extend v e ih
   | graph t p ih => exact .graph t ih
   | values rows => exact .refl _
+  | sub pv p ih => exact .sub pv ih
 
 
 /-! ### the evaluator reaches its stores through `triples` only -/
@@ -260,5 +268,9 @@ theorem evalTD_store_congr {ds ds' : DSet} (hds : ds.Equiv ds') (init : Row n) (
       · rw [h1, h2]
       · rw [h1, h2]; exact ih gs gs' μ h3
   | values rows => exact fun _ _ _ _ => List.Perm.refl _
+  | sub pv p ih =>
+    intro g g' μ hg
+    simp only [evalTD]
+    exact joinBag_perm ((ih g g' init hg).map _) (List.Perm.refl _)
 
 end RV.C15
